@@ -16,10 +16,10 @@ UNITS = [
 CPY = "contracts/c10_copy.h"
 BC = "sections <= 2 (quick) / 3 (thorough); buffer and destination sizes symbolic up to 2^24 bytes (model object-size cap)"
 UNITS += [
-    Unit(name="c10.copy_flattened_data", props=["C10"], tu=CH, roots=["asmjit::CodeHolder::copy_flattened_data"], target="CodeHolder_copy_flattened_data",
+    Unit(name="c10.copy_flattened_data", props=["C10", "C14"], tu=CH, roots=["asmjit::CodeHolder::copy_flattened_data"], target="CodeHolder_copy_flattened_data",
          contracts=CPY, defines=["VERIF_KEEP_LIBC_MEM"], quick_defines=["VERIF_NSEC=2"], thorough_defines=["VERIF_NSEC=3"], unwind=5,
          replace=["memcpy", "memset"], object_bits=12, kind="bounded", bound_note=BC, trusted=["memcpy/memset replaced by assumed contracts (w_ok/r_ok preconditions asserted at every call site)"]),
-    Unit(name="c10.copy_section_data", props=["C10"], tu=CH, roots=["asmjit::CodeHolder::copy_section_data"], target="CodeHolder_copy_section_data",
+    Unit(name="c10.copy_section_data", props=["C10", "C14"], tu=CH, roots=["asmjit::CodeHolder::copy_section_data"], target="CodeHolder_copy_section_data",
          contracts=CPY, defines=["VERIF_KEEP_LIBC_MEM"], quick_defines=["VERIF_NSEC=2"], thorough_defines=["VERIF_NSEC=3"], unwind=5,
          replace=["memcpy", "memset"], object_bits=12, kind="bounded", bound_note=BC, trusted=["memcpy/memset replaced by assumed contracts (w_ok/r_ok preconditions asserted at every call site)"]),
 ]
